@@ -1082,7 +1082,7 @@ fn main() {
     let mut t = Trace::from_args();
     let seed = seed_from_env();
     let thorough = arg_str("--tier").as_deref() == Some("thorough");
-    let nseq = arg_u64("--seqs", if thorough { 400 } else { 120 });
+    let nseq = arg_u64("--seqs", if thorough { 400 } else { 220 });
     let len = arg_u64("--len", 45);
     let mut rng = Rng::new(seed);
     directed(&mut t);
